@@ -235,3 +235,41 @@ def realise_sharing(fggs_indices, rng, ps, dtype, other, share_p=0.3):
                 used.add(id(ax))
                 share[k2] = ax
     return realise(fggs_indices, ps, dtype, shared_axes=share or None), bool(share)
+
+
+def zero_summand_types(rng, max_numel=8):
+    """dimension types whose first dimension is a sum type with a zero-size summand between
+    two non-empty ones: the only WELL-TYPED way for two patterns of one dimension to agree on
+    SumAxis.before and differ on SumAxis.after (or vice versa).  Overlapping injections are
+    what the library itself calls an index type mismatch, and are never generated."""
+    a, b = rng.randint(1, 3), rng.randint(1, 3)
+    cs = [('atom', a), ('atom', 0), ('atom', b)]
+    if rng.random() < 0.3:
+        cs.insert(rng.choice([0, 3]), ('atom', rng.randint(1, 2)))
+    ts = [('sum', tuple(cs))]
+    for _ in range(rng.choice([0, 1, 1, 2])):
+        ts.append(gen_type(rng, 1, max(2, max_numel // 2)))
+    rng.shuffle(ts)
+    return ts
+
+
+def gen_pattern_pair_same_before(rng, value_fn, default_fn, tries=60, **kw):
+    """(types, p1, p2) where some dimension of p1 and p2 are sum injections with equal `before`
+    and different `after` or equal `after` and different `before` (falls back to whatever the
+    last try gave; the caller counts via `same_before_differs_after`)"""
+    ts = zero_summand_types(rng)
+    p1 = p2 = None
+    for _ in range(tries):
+        p1 = gen_pattern(rng, ts, value_fn, default_fn(), **kw)
+        p2 = gen_pattern(rng, ts, value_fn, default_fn(), **kw)
+        if same_before_differs_after(p1, p2):
+            break
+    return ts, p1, p2
+
+
+def same_before_differs_after(p1, p2):
+    for e, f in zip(p1['vaxes'], p2['vaxes']):
+        if isinstance(e, dict) and isinstance(f, dict):
+            if (e['before'] == f['before']) != (e['after'] == f['after']):
+                return True
+    return False
